@@ -96,6 +96,12 @@ impl<const TOTAL_NUM_BITS: u32, const NUM_INDEX_BITS: u32>
         self.last_accumulator = 0;
         self.rolled_over = false;
     }
+
+    /// `pa.verif_accumulator()` is the raw accumulator value, read-only, for external verification tooling
+    #[cfg(feature = "verif-hooks")]
+    pub fn verif_accumulator(&self) -> u32 {
+        self.accumulator
+    }
 }
 
 #[cfg(test)]
